@@ -11,16 +11,16 @@ PY = "/venv/bin/python -S -I"
 CLAIMED = {
     "C01": ("partial: structural necessary conditions of 'every generated tree is a derivation from the requested start symbol' - substitution guard "
             "(path, same symbol, target not read-only), default-off grammar-deviating generation, repetition-count provenance, repair under the target's symbol, "
-            "nodes located by reference, repetition tags read for the same nodes they are written for, no parse/fuzz under the default start symbol, no caller swallows exceptions raised inside the unprotected surgery bracket of the repetition repair",
+            "nodes located by reference, repetition tags read for the same nodes they are written for, no parse/fuzz under the default start symbol, no caller swallows exceptions raised inside the unprotected surgery bracket of the repetition repair, a generator's subtree is the parse result of its value, a node installed by replace_multiple inherits parent link and repetition tags",
             "CFG dominance + def-use provenance + settings-table cross-check + writer/reader domain agreement + who-passes-what at call sites", "§3/C01, §9.2"),
     "C02": ("error/emission discipline behind 'emitted solutions satisfy every hard constraint': every evaluator yield lies behind the "
             "acceptance test, raising evaluations record failures on all handler paths (evaluator and constraint level) and cannot shrink the divisor, every value the "
             "COMPLETE-mode pipeline yields originates from an evaluator yield, padding only under best_effort; in exact rational arithmetic the "
-            "threshold operand is a convex combination of the class means with positive weights; a comparison that does not hold never scores 1.0 in float arithmetic; quantifier bindings (scope, local variables) are forwarded to every constraint / search method that takes them",
+            "threshold operand is a convex combination of the class means with positive weights; a comparison that does not hold never scores 1.0 in float arithmetic; quantifier bindings (scope, local variables) are forwarded to every constraint / search method that takes them, replaced nodes keep their repetition tags, selector errors are never turned into 'no match', cli commands consume the constraint options with and without -f",
             "CFG path queries (must-pass-through, handler-to-backedge), accumulator classification, emission-provenance fixpoint over generators, "
             "rational and closed-interval abstract interpretation", "§3/C02, §9.2"),
     "C03": ("decides the property's arithmetic clause for all (h, r) at once: under 'every per-constraint fitness is 1.0' the value compared "
-            "with the acceptance threshold is exactly 1.0 and the comparison accepts equality; a holding comparison scores exactly 1.0; a tree is marked as reported only together with its yield, and every caller of the search pipeline forwards the evaluator's yields",
+            "with the acceptance threshold is exactly 1.0 and the comparison accepts equality; a holding comparison scores exactly 1.0; a tree is marked as reported only together with its yield, and every caller of the search pipeline forwards the evaluator's yields on every path (no drop, no overwrite, stored yields flushed unconditionally)",
             "abstract interpretation in an exactness domain {ONE, INT(linear form), ROUNDED} with loop and call summaries; interval interpretation of the scoring helper", "§3/C03, §9.2"),
     "C04": ("partial: API filter, helper-symbol containment, error discipline, visitor exhaustiveness, scanner leaves = input slices with a "
             "column advance that matches the consumed length, complete mode accepts only complete matches, the forest memo key covers mode/start/word, "
@@ -31,7 +31,7 @@ CLAIMED = {
             "the upward walk of construct_incomplete_tree takes the earliest waiting item, every item is completed in its own turn of the column loop (armed while the item identity is not finite)",
             "field-set derivation from __hash__/__eq__ + annotation domains, who-may-write, CFG loop-variant query, guard-conjunct check, first-match idiom recognition", "§3/C06, §9.2"),
     "C07": ("partial: operator tables, raising combination = failure, vacuous truth, lazy == eager, inversion duality, selector dispatch, memo keys distinguish bindings, "
-            "constant-index grammar accessors only where the slot is fixed, a failing comparison never scores as satisfied, quantifier bindings are forwarded and written only into dictionaries the quantifier built itself, expressions are evaluated in one namespace (matches visible in generator expressions / lambdas)",
+            "constant-index grammar accessors only where the slot is fixed, a failing comparison never scores as satisfied, quantifier bindings are forwarded and written only into dictionaries the quantifier built itself, expressions are evaluated in one namespace (matches visible in generator expressions / lambdas), node values handed to constraints are not memoised mutable objects",
             "three-way table agreement (lexer literals / converter / Comparison), accumulator obligations on CFG paths, sibling cross-checks, grammar-alternative analysis of ctx.X(k)", "§3/C07, §9.2"),
     "C08": ("'never silently altered or dropped': every parser rule that can reach the translator's default child-aggregator is transparent, "
             "every operator token maps to CPython's own operator class through the handler's own branch, literals are decoded by Python's evaluator, parameter kinds feed the right ast.arguments field, "
@@ -48,7 +48,7 @@ CLAIMED = {
             "(type closure clear of spec globals), lists extended in place come from per-call builders, node-level memos handed out by reference are immutable, quantifiers bind only into dictionaries they own, memoised fitness methods read no re-bindable module state, symbol hashes carry the kind, decorator memos reachable from an evaluation are keyed by everything they read",
             "memo-idiom recognition, def-use key slicing, CFG ordering, field-type-graph reachability, return-freshness", "§3/C11, §9.2"),
     "C12": ("the cache protocol behind history-independent parsing: publish after completion, served trees share nothing with the memo, "
-            "hit path == miss path, per-parse state reset, the key covers every input of the producer (recognised through helper methods as well), values memoised on symbols / grammar nodes / converters do not depend on inputs their slot or key does not cover (decorator memos included)",
+            "hit path == miss path, per-parse state reset, the key covers every input of the producer (recognised through helper methods as well), values memoised on symbols / grammar nodes / converters do not depend on inputs their slot or key does not cover (decorator memos, key objects compared by fewer fields than the value reads, state set from outside), the clean-up of an abandoned parse generator writes no shared state",
             "CFG reachability incl. generator-abandonment edges, reaching definitions, effect summaries, partial evaluation on boolean parameters, key-construction tracing", "§3/C12, §9.2"),
     "C14": ("partial: both front ends embed the same serialized automaton and token tables and agree with the .g4 sources; every lexer hook "
             "exists on both sides with the same state update; the hand-written layout algorithm (NEWLINE/INDENT/DEDENT decisions, indentation arithmetic) agrees between "
